@@ -156,7 +156,7 @@ def main(tier):
         results = []
         for p, op, hs, oname in procs:
             try:
-                outp, _ = p.communicate(timeout=1200 if tier == "quick" else 14400)
+                outp, _ = p.communicate(timeout=3600 if tier == "quick" else 14400)
             except subprocess.TimeoutExpired:
                 p.kill()
                 run.inconclusive_because(f"child hashseed={hs} order={oname} hit the wall-clock watchdog")
